@@ -13,6 +13,10 @@ case kinds (see RULE for pools and counts):
   sess     one parse step of a session on one or two long-lived parsers    oracle; model when the step is plain
   reunk    an unk context with re-entrant calls EV("5") around the hole    oracle (if the hole is reached) + model
   case     lower- / mixed-case spelling of a registered name               model only
+  lis      names of a formula answered (or not) by callVariable listeners  oracle (effective value per reference) + model when
+           that call the setter with None / values / not at all             every name evaluates to one thing
+  lisunk   a never-registered variable in the hole of an unk context, the  oracle (if the hole is reached) + model
+           listeners handing it nothing but None
 agree / oracle / nontrivial at the end of the file are guarded wrappers of _agree / _oracle / _nontrivial.
 """
 import datetime
@@ -40,7 +44,7 @@ FUNCTIONS = ['hotxlfp.parser:Parser.__init__', 'hotxlfp.parser:Parser.parse',
              'hotxlfp.grammarparser.lexer:t_RELATIVE_CELL', 'hotxlfp.grammarparser.lexer:t_XLERROR',
              'hotxlfp.grammarparser.lexer:t_error']
 RULE = ('counts: m = 1 quick / 30 thorough and s = 1 quick / 12 thorough, both times scale (5 in quick when the '
-        'fingerprint of a modelled function changed or the Lean build broke); about 4800 cases quick, 77500 thorough. '
+        'fingerprint of a modelled function changed or the Lean build broke); about 5500 cases quick, 94200 thorough. '
         '(var) 32 special names (names of builtins SUM PI IF, sum, extensions TRUEx xTRUE TRUE_ FALSEy NULLz, true null, '
         '_ __, single letters, 12 characters) + 500m seeded names of the VARIABLE shape '
         '^(?![A-Za-z]+[0-9])(?:[A-Za-z][A-Za-z_0-9]+|[A-Za-z_]+)$, lengths 1..12, three shapes (letters and _, letters '
@@ -127,15 +131,45 @@ RULE = ('counts: m = 1 quick / 30 thorough and s = 1 quick / 12 thorough, both t
         're-entrant calls are a prefix of the call sites in evaluation order, the 5 inner formulas with an unbound name '
         'give #NAME?, the inner formulas va / vb give the bound object. (var-out) 7 cell-shaped / dotted names (A1 ab12 '
         'abc1_x x.y a.b.c Z9 a1b) bound to 3 and (case) sum(1) Sum(1) pi(1) If(1) iferror(1) true True null: compared '
-        'with the model only, no oracle. Model: every case is also evaluated by the Lean model (eval formula + '
+        'with the model only, no oracle. (lis) parsers with 1..3 callVariable LISTENERS (p.on): each listener has, per name '
+        'of the formula (65%), a script of 1..2 rounds (reference j of the name uses round j mod the number of rounds) of '
+        '0..3 setter calls, each None (50%) or a seeded value, and a default for every other name (does nothing / '
+        'setter(None) / setter(None) twice); the 1..3 names of the formula are never registered (40%), registered with a '
+        'seeded value (22%), registered with the value None (12%) or the predefined TRUE FALSE NULL as they are (26%; 15% of '
+        'the registered ones are TRUE FALSE NULL too); formulas: the bare name 30%, ID(name) 10%, G(...) of 1..4 slots '
+        '(references, arrays holding a reference, ID(reference), literals, blank slots, three separators) 40%, int '
+        'arithmetic (-name, name op name, name op k, k op (name op name), op among + - *, all values ints) 20%. 400m seeded '
+        '+ 140 systematic (5 statuses unregistered / registered / registered with None / TRUE / NULL x 14 listener set-ups: '
+        'the 8 call patterns nothing, None, None None, v, None v, v None, v None w, v w; the two-listener splits v|None, '
+        'None|v, None|None; the three defaults alone - x the bare name and G(1,name,"x")) + 10 fixed (the host '
+        'setter(env.get(name)) over price qty beside rate=0.2 nothing=None: ratio, price, rate, nothing, NULL, price*qty, '
+        'price*ratio, IF(ratio>1,1,2), G(price,ratio); a listener that only watches). Oracle: every reference, in '
+        'evaluation order, evaluates to the value registered on the parser (or the predefined one) replaced by the last '
+        'non-None value handed to the setter during that reference; a name that is not registered and is handed no '
+        'non-None value is unknown and the first such reference makes the record exactly {None, #NAME?}; otherwise the bare '
+        'name is the very object (None -> blank, error value -> its code, ints by value), ID / G are called once per site '
+        'with the very objects and the record is what the outermost returned, int arithmetic gives the int; a formula '
+        'whose value the statement does not give (another built-in, an operator on non-ints) is not judged unless an '
+        'unknown name comes first. About 100 of the 550 quick cases expect #NAME?, 80 of them with a listener that did call '
+        'the setter (with None). (lisunk) 40 of the 175 systematic (unk) contexts quick / all thorough + 150m seeded ones '
+        '(depth 0..4 / 0..7) with a never-registered variable (nosuchvar, true, ratio, seeded + _u) in the hole, over va vb '
+        'v_c flag ID G, on a parser with 1..2 listeners that hand that name nothing or None (once / twice, by script or by '
+        'default; at least one hands None) and hand None / nothing for the registered and predefined names in front of the '
+        'hole: exactly #NAME? when the hole is reached exactly once (probe with REACHED() in the hole under the same '
+        'listeners). Both kinds are generated after all other streams. '
+        'Model: every case is also evaluated by the Lean model (eval formula + '
         'environment: variables, functions as const / args / first), except the sess steps that are not plain (see '
-        'TRUSTED; about a fifth of them); compared: the record (ints, text, logicals, error codes, blanks exactly, floats '
+        'TRUSTED; about a fifth of them) and the (lis) cases in which one name evaluates to two different things (per-reference '
+        'scripts; about 3%) - the listeners are represented in the environment by the values they set: a name is a variable '
+        'with its effective value, or absent; compared: the record (ints, text, logicals, error codes, blanks exactly, floats '
         'within 4 ulps or 1e-12 relative; a model value (o ...) = no opinion is not compared); var / unkvar / predef also '
-        "that the model's only event is the lookup of that variable; fn / sess also that the model's function events are "
+        "that the model's only event is the lookup of that variable; lis / lisunk also that the model's variable lookups are "
+        "the names the first listener was asked for, in order; fn / sess also that the model's function events are "
         "the parser's own callFunction events (names and arguments, builtins included, up to the first builtin the model "
         'does not carry); doc only whether it is a name error. Non-trivial = var / unkvar / predef / doc / var-out: every '
         'case; fn: at least one custom call was recorded; unk: the hole was reached exactly once; reunk: that, and at '
-        'least one re-entrant call was recorded; sess: the statement had an opinion on the step (most steps; none when an '
+        'least one re-entrant call was recorded; lis: a listener was asked for a name; lisunk: the hole was reached exactly '
+        'once; sess: the statement had an opinion on the step (most steps; none when an '
         'operator result other than + - * / unary minus of ints, a text that is no tree, or a re-entrant name whose '
         'binding and call shape differ is met before any unbound name); case: never. Every case counts once (no bulk '
         'weights); no time or step budget. search() (a proof or the correspondence broke and no oracle failure yet): all '
@@ -178,6 +212,14 @@ TRUSTED = ['the reading of SUPPORTED_FORMULAS.md: the bullets (- or *, the name 
            'ID / G, REACHED returning 1; (reunk) the probe runs on the formula with the re-entrant calls written back as '
            'the literals they return and EVF(...) as NULL (so the probe does not depend on re-entrancy); EV("5") returns '
            'what the literal 5 evaluates to (given to the model as (const 5), EVF as (const blank))',
+           '(lis) (lisunk) the listeners are harness closures built from the case text (make_listener: per-name scripts with a '
+           'per-name reference counter, a default for other names; they also record the names they are asked for); the '
+           'effective value of each reference (lis_effective) is computed by the harness from the case text over the very '
+           'objects handed to set_variable / to the setter, taking the references left to right, once each; ID and G record '
+           'their calls; (lisunk) reachability as for (unk), the probe parser carrying the same listeners; the Lean model has '
+           'no callVariable listeners: it is given the effective values as plain variables, so that a None handed to the '
+           'setter registers nothing is judged by the oracle only (the model side of these cases checks name resolution over '
+           'the resulting environment and the order of the lookups)',
            'the guarded entry points agree / oracle / nontrivial: a TypeError / ValueError raised by the == of an EqRaises '
            '/ EqArray value while an outcome is compared (recognised by its message) becomes a disagreement / a violation '
            '(a host value bound for another evaluation reached this one) / non-trivial instead of crashing the harness, '
@@ -214,6 +256,13 @@ ASSUMPTIONS = ['names are compared exactly (case-sensitive): the never-set varia
                '(reunk) a re-entrant call in front of the hole whose inner formula fails does not pre-empt it (its function '
                'returns a blank); a context whose hole is not reached exactly once is not judged (none arises on the unchanged '
                'tree)',
+               'a callVariable listener - p.on("callVariable", fn(name, setter)) - is a way for the host to register a value for '
+               'the reference being evaluated: "the value that was set" is the value set on the parser (or the predefined one) '
+               'replaced by the last non-None value handed to the setter during that reference (later listeners and later '
+               'calls win; it does not outlast the reference). None handed to the setter means "no value", as for every value '
+               'setter of the library, and registers nothing: a registered / predefined name keeps its value (a variable set to '
+               'None stays a blank), and a name that is not registered and is handed only None, or nothing, by every listener '
+               'is "any other variable" -> exactly #NAME?, never a blank or a value (0 under an operator, the ELSE branch of an IF)',
                'a custom function that raises is outside the statement (C08 covers it)',
                '"after a variable is set / a function is registered" is read as: until it is set / registered again on the '
                'SAME parser; bindings are per parser instance, a later set_function takes precedence over a built-in even if '
@@ -944,6 +993,235 @@ def re_sites(t, out):
             re_sites(x, out)
 
 
+# ------------------------------------------------------------------ (lis) (lisunk) names answered by callVariable listeners
+#  A host may serve variables through the event: p.on('callVariable', lambda name, setter: setter(env.get(name))).
+#  listener = {'d': 'skip' | 'none' | 'none2'              what it does for a name it has no script for: nothing / setter(None) / twice
+#              'n': {name: [round, ...]}}                   round = [valuespec, ...]: the values handed to the setter, in order, on
+#                                                           one reference of the name (['none'] = None); reference j uses round j mod len
+#  case (lis)    = {'kind': 'lis', 'reg': {name: valuespec}, 'lst': [listener, ...], 't': tree over G / ID / + - * / unary minus}
+#  case (lisunk) = {'kind': 'lisunk', 'ctx': context with a hole, 'fill': ['v', name], 'lst': [listener, ...]}   over VARS_UNK, ID, G
+
+LIS_DEFAULT = {'skip': 0, 'none': 1, 'none2': 2}
+MISSING = ('missing',)
+
+
+def tree_refs(t, out):
+    """the variable references of a tree in evaluation order (left to right)"""
+    if t == 'blank' or not isinstance(t, list):
+        return out
+    k = t[0]
+    if k == 'v':
+        out.append(t[1])
+    elif k == 'neg':
+        tree_refs(t[1], out)
+    elif k == 'bin':
+        tree_refs(t[2], out)
+        tree_refs(t[3], out)
+    elif k in ('call', 'arr'):
+        for x in t[3 if k == 'call' else 2]:
+            tree_refs(x, out)
+    elif k == 'rows':
+        for x in t[2] + t[3]:
+            tree_refs(x, out)
+    return out
+
+
+def lis_effective(refs, reg, lst, given):
+    """what each reference (in evaluation order) evaluates to according to the statement: the value registered on the parser (or
+    the predefined one), replaced by the last non-None value that a listener hands to the setter during THAT reference; MISSING
+    when the name is not registered and no listener hands a non-None value.
+    reg: name -> value, given[i]: name -> rounds of the values that listener i hands over (same shape as lst[i]['n'])"""
+    counters = {}
+    out = []
+    for name in refs:
+        cur = reg[name] if name in reg else PREDEF[name] if name in PREDEF else MISSING
+        for i, L in enumerate(lst):
+            rounds = given[i].get(name)
+            if not rounds:
+                continue          # no script for this name: nothing or None is handed over
+            j = counters.get((i, name), 0)
+            counters[(i, name)] = j + 1
+            for v in rounds[j % len(rounds)]:
+                if v is not None:
+                    cur = v
+        out.append(cur)
+    return out
+
+
+def make_listener(L, given, asked):
+    counters = {}
+
+    def listener(name, setter):
+        asked.append(name)
+        rounds = given.get(name)
+        if not rounds:
+            for _ in range(LIS_DEFAULT[L['d']]):
+                setter(None)
+            return
+        j = counters.get(name, 0)
+        counters[name] = j + 1
+        for v in rounds[j % len(rounds)]:
+            setter(v)
+    return listener
+
+
+def lis_objects(lst):
+    return [{n: [[mkval(s) for s in rnd] for rnd in rounds] for n, rounds in L['n'].items()} for L in lst]
+
+
+def describe_listeners(lst):
+    out = []
+    for i, L in enumerate(lst):
+        parts = []
+        for n, rounds in L['n'].items():
+            show = [[('None' if s == ['none'] else repr(mkval(s))) for s in rnd] for rnd in rounds]
+            if len(show) == 1:
+                parts.append('for %r it calls setter with %s' % (n, ', then '.join(show[0]) if show[0] else 'nothing (no call)'))
+            else:
+                parts.append('for %r it calls setter with %s' % (n, ' / '.join('reference %d: %s' % (j + 1, ', then '.join(r) if r else 'no call')
+                                                                            for j, r in enumerate(show)) + ' (cyclically)'))
+        parts.append({'skip': 'for any other name it does nothing', 'none': 'for any other name it calls setter(None)',
+                      'none2': 'for any other name it calls setter(None) twice'}[L['d']])
+        out.append("p.on('callVariable', L%d) where L%d(name, setter): %s" % (i + 1, i + 1, '; '.join(parts)))
+    return '; '.join(out)
+
+
+LIS_PATTERNS = [[], ['N'], ['N', 'N'], ['v'], ['N', 'v'], ['v', 'N'], ['v', 'N', 'w'], ['v', 'w']]
+
+
+def gen_lis_value(rng, arith):
+    if arith:
+        return ['int', str(rng.randrange(-50, 50))]
+    if rng.random() < 0.04:
+        return [rng.choice(['eqall', 'eqraises', 'eqarray'])]
+    v = gen_value(rng, 1)
+    return v if v != ['none'] else ['int', '0']
+
+
+def gen_lis_name(rng, taken):
+    while True:
+        n = rng.choice(SPECIAL_VARS) if rng.random() < 0.3 else gen_varname(rng)
+        if n not in PREDEF and n not in taken and VAR_RE.fullmatch(n):
+            return n
+
+
+def gen_lis_listeners(rng, names, val, pnone=0.5):
+    lst = []
+    for _ in range(rng.randrange(1, 4)):
+        L = {'d': rng.choice(['skip', 'none', 'none', 'none2']), 'n': {}}
+        for n in names:
+            if rng.random() < 0.65:
+                L['n'][n] = [[(['none'] if rng.random() < pnone else val()) for _ in range(rng.choice([0, 1, 1, 1, 2, 2, 3]))]
+                             for _ in range(1 if rng.random() < 0.75 else 2)]
+        lst.append(L)
+    return lst
+
+
+def gen_lis(rng):
+    shape = rng.choice(['bare', 'bare', 'bare', 'id', 'g', 'g', 'g', 'g', 'arith', 'arith'])
+    arith = shape == 'arith'
+    val = lambda: gen_lis_value(rng, arith)
+    names, reg = [], {}
+    for _ in range(1 if shape in ('bare', 'id') else rng.randrange(1, 4)):
+        r = rng.random()
+        if r < 0.4:
+            n = gen_lis_name(rng, names)                                          # never registered
+        elif r < 0.62:
+            n = rng.choice(list(PREDEF)) if rng.random() < 0.15 else gen_lis_name(rng, names)
+            reg[n] = val()                                                        # registered with a value
+        elif r < 0.74:
+            n = rng.choice(list(PREDEF)) if rng.random() < 0.15 else gen_lis_name(rng, names)
+            reg[n] = ['none']                                                     # registered with the value None
+        else:
+            n = rng.choice(list(PREDEF))                                          # predefined, as it is
+        if n not in names:
+            names.append(n)
+    lst = gen_lis_listeners(rng, names, val)
+    ref = lambda: ['v', rng.choice(names)]
+    if shape == 'bare':
+        t = ref()
+    elif shape == 'id':
+        t = ['call', 'ID', ',', [ref()]]
+    elif shape == 'g':
+        first = [True]
+
+        def mk():
+            r = rng.random()
+            if first[0] or r < 0.7:
+                first[0] = False
+                return ref()
+            if r < 0.8:
+                return ['arr', rng.choice(SEPS), [ref(), gen_lit(rng)]]
+            if r < 0.88:
+                return ['call', 'ID', ',', [ref()]]
+            return gen_lit(rng)
+        t = ['call', 'G', rng.choice(SEPS), gen_slots(rng, rng.randrange(1, 5), mk)]
+    else:
+        num = lambda: ['n', str(rng.randrange(0, 60))]
+        r = rng.random()
+        if r < 0.15:
+            t = ['neg', ref()]
+        elif r < 0.5:
+            t = ['bin', rng.choice(['+', '-', '*']), ref(), ref()]
+        elif r < 0.75:
+            t = ['bin', rng.choice(['+', '-', '*']), ref(), num()]
+        else:
+            t = ['bin', rng.choice(['+', '-', '*']), num(), ['bin', rng.choice(['+', '-', '*']), ref(), ref()]]
+    return {'kind': 'lis', 'reg': reg, 'lst': lst, 't': t}
+
+
+def systematic_lis(rng):
+    """every status of the name x every pattern of setter calls (one listener; and split over two listeners) x the bare name and
+    an argument position of a custom function"""
+    out = []
+    for status in ('unreg', 'reg', 'regnone', 'TRUE', 'NULL'):
+        name = status if status in PREDEF else 'ratio_x'
+        reg = {name: gen_lis_value(rng, False)} if status == 'reg' else {name: ['none']} if status == 'regnone' else {}
+        scripts = []
+        for pat in LIS_PATTERNS:
+            vals = {'N': ['none'], 'v': gen_lis_value(rng, False), 'w': gen_lis_value(rng, False)}
+            scripts.append([{'d': 'skip', 'n': {name: [[vals[x] for x in pat]]}}])
+        v = gen_lis_value(rng, False)
+        for a, b in ((['v'], ['N']), (['N'], ['v']), (['N'], ['N'])):
+            scripts.append([{'d': 'skip', 'n': {name: [[{'N': ['none'], 'v': v}[x] for x in a]]}},
+                            {'d': 'none', 'n': {name: [[{'N': ['none'], 'v': v}[x] for x in b]]}}])
+        # no script at all: the default of the listener (nothing / None / None twice) answers
+        for d in ('skip', 'none', 'none2'):
+            scripts.append([{'d': d, 'n': {}}])
+        for lst in scripts:
+            out.append({'kind': 'lis', 'reg': reg, 'lst': lst, 't': ['v', name]})
+            out.append({'kind': 'lis', 'reg': reg, 'lst': lst, 't': ['call', 'G', ',', [['n', '1'], ['v', name], ['s', 'x']]]})
+    return out
+
+
+def gen_lisunk(rng, cx, name=None):
+    """a never-registered name in the hole of an (unk) context, on a parser whose listeners hand it nothing or only None (and hand
+    None / nothing for the registered names va vb v_c flag and the predefined ones in front of the hole)"""
+    name = name or gen_varname(rng) + '_u'
+    lst = []
+    for _ in range(rng.randrange(1, 3)):
+        L = {'d': rng.choice(['skip', 'none', 'none', 'none2']), 'n': {}}
+        if rng.random() < 0.5:
+            L['n'][name] = [[['none']] * rng.choice([0, 1, 1, 2])]
+        if rng.random() < 0.3:
+            L['n'][rng.choice(['va', 'vb', 'v_c', 'flag', 'TRUE', 'NULL'])] = [[['none']] * rng.choice([0, 1, 2])]
+        lst.append(L)
+    if not any(L['n'].get(name, [[]])[0] or (name not in L['n'] and L['d'] != 'skip') for L in lst):
+        lst[0]['n'][name] = [[['none']]]          # at least one listener answers the name in the hole with None
+    return {'kind': 'lisunk', 'ctx': cx, 'fill': ['v', name], 'lst': lst}
+
+
+# the host of the missed change c09_l: variables served from a dict, `setter(env.get(name))` (None for a name it does not know)
+_ENV_LISTENER = {'d': 'none', 'n': {'price': [[['int', '40']]], 'qty': [[['int', '3']]]}}
+_ENV_REG = {'rate': ['float', (0.2).hex()], 'nothing': ['none']}
+LIS_CORPUS = [{'kind': 'lis', 'reg': _ENV_REG, 'lst': [_ENV_LISTENER], 't': t} for t in (
+    ['v', 'ratio'], ['v', 'price'], ['v', 'rate'], ['v', 'nothing'], ['v', 'NULL'],
+    ['bin', '*', ['v', 'price'], ['v', 'qty']], ['bin', '*', ['v', 'price'], ['v', 'ratio']],
+    ['call', 'IF', ',', [['bin', '>', ['v', 'ratio'], ['n', '1']], ['n', '1'], ['n', '2']]],
+    ['call', 'G', ',', [['v', 'price'], ['v', 'ratio']]])] + [
+    {'kind': 'lis', 'reg': {}, 'lst': [{'d': 'skip', 'n': {}}], 't': ['v', 'ratio']}]
+
+
 # ------------------------------------------------------------------ cases
 
 def cases(rng, ctx):
@@ -1103,6 +1381,16 @@ def cases(rng, ctx):
     # lower-case / mixed-case spellings of registered names: compared with the model only
     for n in ['sum', 'Sum', 'pi', 'If', 'iferror', 'true', 'True', 'null']:
         out.append({'kind': 'case', 'f': n + '(1)' if n.lower() not in ('true', 'null') else n})
+
+    # (lis) (lisunk) names answered (or not) by callVariable listeners - generated LAST so that the streams above do not move
+    out += [dict(c) for c in LIS_CORPUS]
+    out += systematic_lis(rng)
+    for i in range(400 * mult):
+        out.append(gen_lis(rng))
+    for cx in (sysctx if thorough else rng.sample(sysctx, 40)):
+        out.append(gen_lisunk(rng, cx, rng.choice(['nosuchvar', 'true', 'ratio', None])))
+    for i in range(150 * mult):
+        out.append(gen_lisunk(rng, gen_ctx(rng, rng.randrange(0, maxd + 1))))
     return out
 
 
@@ -1124,6 +1412,10 @@ def formula_of(c):
         return render(c['steps'][c['at']][2])
     if k == 'reunk':
         return render(c['ctx'], render(c['fill']))
+    if k == 'lis':
+        return render(c['t'])
+    if k == 'lisunk':
+        return render(c['ctx'], render(c['fill']))
     raise ValueError(k)
 
 
@@ -1134,6 +1426,10 @@ def impl(c):
         return run_session(c)[c['at']]
     if k == 'reunk':
         return run_reunk(c)
+    if k == 'lis':
+        return run_lis(c)
+    if k == 'lisunk':
+        return run_lisunk(c)
     p = hxm.Parser()
     f = formula_of(c)
     if k == 'var':
@@ -1203,6 +1499,52 @@ def env_fns(p):
     p.set_function('G', lambda *a: list(a))
 
 
+def run_lis(c):
+    hxm = hx()
+    p = hxm.Parser()
+    reg = {n: mkval(s) for n, s in c['reg'].items()}
+    for n, v in reg.items():
+        p.set_variable(n, v)
+    calls = []
+
+    def rec_fn(name, body):
+        def fn(*a):
+            r = body(*a)
+            calls.append((name, a, r))
+            return r
+        return fn
+    p.set_function('ID', rec_fn('ID', lambda *a: a[0] if a else None))
+    p.set_function('G', rec_fn('G', lambda *a: list(a)))
+    given = lis_objects(c['lst'])
+    asked = [[] for _ in c['lst']]
+    for L, g, a in zip(c['lst'], given, asked):
+        p.on('callVariable', make_listener(L, g, a))
+    rec = p.parse(render(c['t']))
+    # what the statement makes of each reference, computed from the case text over the very objects handed to the parser
+    eff = lis_effective(tree_refs(c['t'], []), reg, c['lst'], given)
+    return {'rec': rec, 'calls': calls, 'asked': asked, 'eff': eff}
+
+
+def run_lisunk(c):
+    hxm = hx()
+
+    def fresh():
+        p = hxm.Parser()
+        env_fns(p)
+        for n, v in VARS_UNK.items():
+            p.set_variable(n, v)
+        asked = []
+        for L, g in zip(c['lst'], lis_objects(c['lst'])):
+            p.on('callVariable', make_listener(L, g, asked))
+        return p, asked
+    p, _ = fresh()
+    reached = []
+    p.set_function('REACHED', lambda *a: reached.append(a) or 1)
+    p.parse(render(c['ctx'], 'REACHED()'))
+    p2, asked = fresh()
+    return {'rec': p2.parse(formula_of(c)), 'reached': len(reached), 'asked': asked}
+
+
 # ------------------------------------------------------------------ model
 
 def request(c):
@@ -1213,6 +1555,8 @@ def request(c):
         return sess_request(c)
     if k == 'reunk':
         return reunk_request(c)
+    if k == 'lis':
+        return lis_request(c)
     if k in ('var', 'var-out'):
         env = fx.env_wire(variables={c['name']: mkval(c['v'])})
     elif k == 'unkvar':
@@ -1224,11 +1568,33 @@ def request(c):
         for n, beh in c['fns'].items():
             fns[n] = {'uniq': '(const (o Token))', 'args': '(args)', 'first': '(first)'}.get(beh[0]) or '(const %s)' % fx.to_wire(mkval(beh[1]))
         env = fx.env_wire(variables={n: mkval(s) for n, s in c['vars'].items()}, fns=fns)
-    elif k == 'unk':
+    elif k in ('unk', 'lisunk'):
+        # (lisunk) the listeners hand over None or nothing: the environment is the registered one
         env = fx.env_wire(variables=VARS_UNK, fns={'ID': '(first)', 'G': '(args)'})
     else:
         return None
     return 'eval %s %s' % (enc_str(f), env)
+
+
+def lis_request(c):
+    """the listeners are represented in the model environment by the values they set: a name is a variable of the environment
+    with its effective value, or absent.  A name whose references evaluate to different things (a listener with a per-reference
+    script) cannot be expressed: no model comparison"""
+    refs = tree_refs(c['t'], [])
+    # the same computation as the oracle's, over the value SPECS of the case text (a handed None stays None)
+    given = [{n: [[None if x == ['none'] else x for x in rnd] for rnd in rounds] for n, rounds in L['n'].items()} for L in c['lst']]
+    eff = lis_effective(refs, dict(c['reg']), c['lst'], given)
+    env = {}
+    for n, e in zip(refs, eff):
+        if n in env and env[n] != e:
+            return None
+        env[n] = e
+    variables = {}
+    for n, e in env.items():
+        if isinstance(e, list):
+            variables[n] = mkval(e)                  # a value spec: registered (possibly None) or handed over by a listener
+        # else: MISSING (absent from the environment) or the predefined value as it is
+    return 'eval %s %s' % (enc_str(render(c['t'])), fx.env_wire(variables=variables, fns={'ID': '(first)', 'G': '(args)'}))
 
 
 def _agree(c, impl_ans, model_ans):
@@ -1245,6 +1611,12 @@ def _agree(c, impl_ans, model_ans):
         return False
     if k in ('var', 'unkvar', 'predef'):
         return mev == [['var', enc_str(c['name'])]]
+    if k in ('lis', 'lisunk'):
+        # the model's variable lookups are the names the (first) listener was asked for, in order
+        if isinstance(mrec[1], list) and mrec[1][:1] == ['o']:
+            return True
+        asked = impl_ans['asked'][0] if k == 'lis' else impl_ans['asked'][::len(c['lst'])]
+        return [e for e in mev if e[0] == 'var'] == [['var', enc_str(n)] for n in asked]
     if k == 'sess':
         return events_agree(mrec, mev, impl_ans['emitted'])
     if k == 'fn':
@@ -1827,10 +2199,111 @@ def reunk_oracle(c, ans):
     return None
 
 
+def is_name_rec(rec):
+    return rec['result'] is None and rec['error'] == '#NAME?'
+
+
+def value_problem(rec, v):
+    """a formula whose value is the object v must be reported as: the very object / a blank for None / the code of an error value"""
+    from hotxlfp.formulas import error
+    if v is None:
+        ok = rec['result'] is None and rec['error'] is None
+    elif isinstance(v, error.XLError):
+        ok = rec['result'] is None and rec['error'] == str(v)
+    elif type(v) is int:
+        ok = rec['error'] is None and type(rec['result']) is int and rec['result'] == v
+    else:
+        ok = rec['error'] is None and rec['result'] is v
+    return None if ok else 'gives %r; the statement makes it %r' % (rec, v)
+
+
+def lis_walk(t, eff, rpos, calls, cpos):
+    """the value of a (lis) tree according to the statement: references consume the effective values in evaluation order, the
+    custom functions G / ID consume their recorded calls"""
+    if t == 'blank':
+        return None
+    k = t[0]
+    if k == 'n':
+        return int(t[1])
+    if k == 'd':
+        return float(t[1] + '.' + t[2])
+    if k == 's':
+        return t[1]
+    if k == 'v':
+        v = eff[rpos[0]]
+        rpos[0] += 1
+        if v is MISSING:
+            raise Unknown(t[1])
+        return v
+    if k == 'arr':
+        return [lis_walk(x, eff, rpos, calls, cpos) for x in t[2]]
+    if k == 'call':
+        args = [lis_walk(x, eff, rpos, calls, cpos) for x in t[3]]
+        if t[1] not in ('G', 'ID'):
+            raise NoOpinion()
+        if cpos[0] >= len(calls):
+            raise Mismatch('call site %s(...) #%d was not called (only %d calls recorded)' % (t[1], cpos[0] + 1, len(calls)))
+        name, a, r = calls[cpos[0]]
+        cpos[0] += 1
+        if name != t[1]:
+            raise Mismatch('call #%d went to %r, the call site in evaluation order is %r' % (cpos[0], name, t[1]))
+        if len(a) != len(args) or not all(eqv(x, y) for x, y in zip(a, args)):
+            raise Mismatch('%s was called with %r, the evaluated arguments are %r' % (name, a, args))
+        return r
+    if k == 'bin':
+        l = lis_walk(t[2], eff, rpos, calls, cpos)
+        r = lis_walk(t[3], eff, rpos, calls, cpos)
+        if type(l) is int and type(r) is int and t[1] in ('+', '-', '*'):
+            return l + r if t[1] == '+' else l - r if t[1] == '-' else l * r
+        raise NoOpinion()
+    if k == 'neg':
+        x = lis_walk(t[1], eff, rpos, calls, cpos)
+        if type(x) is int:
+            return -x
+        raise NoOpinion()
+    raise NoOpinion()
+
+
+def describe_lis(c):
+    sets = ['p.set_variable(%r, %r)' % (n, mkval(s)) for n, s in c.get('reg', {}).items()]
+    if c['kind'] == 'lisunk':
+        sets = ['p.set_variable(%r, %r)' % (n, v) for n, v in VARS_UNK.items()] + ['ID = first argument, G = list of its arguments']
+    return '; '.join(sets + [describe_listeners(c['lst'])])
+
+
+def lis_oracle(c, ans):
+    f = formula_of(c)
+    rec = ans['rec']
+    rpos, cpos = [0], [0]
+    try:
+        root = lis_walk(c['t'], ans['eff'], rpos, ans['calls'], cpos)
+    except Unknown as u:
+        if is_name_rec(rec):
+            return None
+        return ('%s: %r gives %r; %r is not registered on the parser and no listener hands a value other than None to its setter: '
+                'it is an unknown name -> #NAME?' % (describe_lis(c), f, rec, str(u)))
+    except NoOpinion:
+        return None
+    except Mismatch as e:
+        return '%s: %r: %s' % (describe_lis(c), f, e)
+    if cpos[0] != len(ans['calls']):
+        return '%s: %r: %d calls recorded for %d call sites' % (describe_lis(c), f, len(ans['calls']), cpos[0])
+    bad = value_problem(rec, root)
+    return None if bad is None else '%s: %r %s (registered value, replaced by the last non-None value handed to the setter)' % (
+        describe_lis(c), f, bad)
+
+
 def _oracle(c, impl_ans):
     k = c['kind']
     rec = impl_ans['rec']
     f = formula_of(c)
+    if k == 'lis':
+        return lis_oracle(c, impl_ans)
+    if k == 'lisunk':
+        if impl_ans['reached'] != 1:
+            return None
+        return None if is_name_rec(rec) else ('%s: %r gives %r; %r is not registered and the listeners hand it nothing but None'
+                                              % (describe_lis(c), f, rec, c['fill'][1]))
     if k == 'sess':
         msg = judge_sess(c, impl_ans)[0]
         return None if msg is None else '%s: the last formula %s' % (describe_session(c), msg)
@@ -1891,8 +2364,10 @@ def _oracle(c, impl_ans):
 
 def _nontrivial(c, impl_ans):
     k = c['kind']
-    if k == 'unk':
+    if k in ('unk', 'lisunk'):
         return impl_ans['reached'] == 1
+    if k == 'lis':
+        return any(impl_ans['asked'])          # a listener was asked about a name of the formula
     if k == 'reunk':
         return impl_ans['reached'] == 1 and len(impl_ans['calls']) >= 1
     if k == 'sess':
